@@ -130,11 +130,17 @@ class Ctx:
                               "wall_s": round(res["wall"], 2), "violated": res["violated"]})
         if coverage:
             res["zero_actions"] = zero_coverage(out)
+            res["zero_lines"] = sorted(set("%s:%s" % (m.group(2), m.group(1)) for m in
+                                           re.finditer(r"line (\d+), col \d+ to line \d+, col \d+ of module (\w+)>?: 0$", out, re.M)))
         if not want_output:
             pass
         return res
 
     def mc(self, module, cfg, **kw):
+        # thorough tier: also collect TLC's coverage statistics; expressions never evaluated (count 0) are recorded in
+        # the evidence so that a vacuous invariant / dead action is visible (informational, never a verdict)
+        if self.tier == "thorough" and "coverage" not in kw and not kw.get("simulate"):
+            kw["coverage"] = True
         """Design-level model checking run; must complete without error. A violation in the MODEL is not a
         violation of the code: it is reported as INCONCLUSIVE (the model is wrong or the design is) unless the caller
         replays it."""
@@ -146,6 +152,8 @@ class Ctx:
             raise Inconclusive("TLC did not complete on %s/%s" % (module, cfg))
         self.states += r["distinct"]
         self.transitions += r["generated"]
+        if r.get("zero_lines") is not None:
+            self.notes.setdefault("never_evaluated_expressions", {})[cfg] = {"count": len(r["zero_lines"]), "first": r["zero_lines"][:8]}
         return r
 
     def emit(self, module, cfg, tag="CASE", **kw):
